@@ -59,7 +59,8 @@ def xorBlock (st : Array UInt64) (blk : Array UInt8) (off : Nat) : Array UInt64 
     a := a.set! i (a[i]! ^^^ w)
   return a
 
-def keccak256 (msg : Bytes) : Bytes := Id.run do
+/-- absorb the padded message; the final permutation state. -/
+def keccakState (msg : Bytes) : Array UInt64 := Id.run do
   let rate := 136
   let m := msg.toArray
   let padLen := rate - m.size % rate
@@ -70,10 +71,16 @@ def keccak256 (msg : Bytes) : Bytes := Id.run do
   let mut st : Array UInt64 := Array.replicate 25 0
   for blk in [0:p.size / rate] do
     st := keccakF (xorBlock st p (blk * rate))
-  let mut out : Array UInt8 := Array.mkEmpty 32
-  for i in [0:4] do
-    for j in [0:8] do
-      out := out.push ((st[i]! >>> (UInt64.ofNat (8*j))).toUInt8)
-  return out.toList
+  return st
+
+/-- squeeze 32 bytes: lanes 0..3, little-endian. -/
+def squeeze (st : Array UInt64) : Bytes :=
+  (List.range 32).map fun k => (st[k / 8]! >>> (UInt64.ofNat (8 * (k % 8)))).toUInt8
+
+def keccak256 (msg : Bytes) : Bytes := squeeze (keccakState msg)
+
+/-- the digest is 32 bytes long, whatever the input (the named hypothesis `KeccakLen` of C08, for this instance). -/
+theorem keccak256_length (msg : Bytes) : (keccak256 msg).length = 32 := by
+  simp [keccak256, squeeze]
 
 end Cctp.Native
